@@ -173,16 +173,35 @@ func C20(t Tier) int {
 		s := string(rout)
 		switch {
 		case strings.Contains(s, "DATA RACE"):
-			i := strings.Index(s, "WARNING: DATA RACE")
-			j := i + 1500
-			if j > len(s) {
-				j = len(s)
+			// only races with a frame in the repository are this property's business (dependency-internal races, e.g. in
+			// IAVL, are recorded in the evidence but not reported)
+			reported := false
+			for _, rep := range strings.Split(s, "WARNING: DATA RACE")[1:] {
+				if end := strings.Index(rep, "=================="); end > 0 {
+					rep = rep[:end]
+				}
+				if site := raceSite(rep); site != "unknown-site" {
+					run.Add(report.Viol{Kind: "data-race", Sig: "data-race:" + site, Msg: "the race detector reported a data race in the free-running pass:\nWARNING: DATA RACE" + firstN(rep, 1800), Replay: map[string]any{"check": "C20-race", "cmd": "bin/ksrace " + iters}})
+					reported = true
+					break
+				}
 			}
-			run.Add(report.Viol{Kind: "data-race", Sig: "data-race:" + raceSite(s[i:j]), Msg: "the race detector reported a data race in the free-running pass:\n" + s[i:j], Replay: map[string]any{"check": "C20-race", "cmd": "bin/ksrace " + iters}})
-			race["result"] = "race reported"
+			if reported {
+				race["result"] = "race reported"
+			} else {
+				race["result"] = "race reports without any frame in the repository (dependency code); not reported"
+			}
 		case strings.Contains(s, "all goroutines are asleep"):
 			run.Add(report.Viol{Kind: "runtime-deadlock", Sig: "runtime-deadlock:free-running", Msg: "the Go runtime reported a deadlock in the free-running pass:\n" + firstN(s, 1500), Replay: map[string]any{"check": "C20-race"}})
 			race["result"] = "runtime deadlock"
+		case strings.Contains(s, "SNAPSHOT VIOLATION:"):
+			i := strings.Index(s, "SNAPSHOT VIOLATION:")
+			line := s[i:]
+			if j := strings.Index(line, "\n"); j > 0 {
+				line = line[:j]
+			}
+			run.Add(report.Viol{Kind: "snapshot-read", Sig: "snapshot-read:concurrent:" + firstWords(line[len("SNAPSHOT VIOLATION: "):], 6), Msg: "concurrent queries while blocks are executed between rounds: " + line, Replay: map[string]any{"check": "C20-race", "cmd": "bin/ksrace " + iters}})
+			race["result"] = "snapshot violation under concurrent queries"
 		case rerr != nil:
 			fmt.Fprintf(os.Stderr, "HARNESS ERROR: ksrace failed: %v\n%s\n", rerr, firstN(s, 2000))
 			return 2
